@@ -25,6 +25,8 @@ type callsScen struct {
 	ExtErr  bool                `json:"extErr"`
 	RootCtx bool                `json:"rootCtx"`
 	ExtCtx  bool                `json:"extCtx"`
+	ExtId   bool                `json:"extId"`
+	Wrap    string              `json:"wrap"`
 	GenOK   bool                `json:"genOK"`
 	Model   string              `json:"model"`
 	Ins     []json.RawMessage   `json:"ins"`
@@ -32,7 +34,8 @@ type callsScen struct {
 
 func callsFieldTypes(fk string) (string, string) {
 	m := map[string][2]string{"i2i": {"int", "int"}, "i2s": {"int", "string"}, "ptrA": {"*A", "*A2"}, "ptrB": {"*B", "*B2"},
-		"slcA": {"[]A", "[]A2"}, "slcB": {"[]B", "[]B2"}, "valB": {"B", "B2"}}
+		"slcA": {"[]A", "[]A2"}, "slcB": {"[]B", "[]B2"}, "valB": {"B", "B2"},
+		"s2s": {"string", "string"}, "mapB": {"map[string]B", "map[string]B2"}, "mapK": {"map[int]int", "map[string]int"}, "mapV": {"map[string]int", "map[string]string"}}
 	return m[fk][0], m[fk][1]
 }
 
@@ -42,7 +45,15 @@ func callsSource(i int, s callsScen) string {
 	if s.Dir != "p" && s.Dir != "" {
 		pkg = s.Dir
 	}
-	fmt.Fprintf(&b, "package %s\n\nimport \"math\"\n\ntype Ctx struct{ Tok string }\n\n// goverter:converter\n// goverter:extend E\ntype C interface {\n", pkg)
+	ext := "E"
+	if s.ExtId {
+		ext = "E Canon"
+	}
+	wrap := ""
+	if s.Wrap == "using" {
+		wrap = "// goverter:wrapErrorsUsing v.test/b/wx\n"
+	}
+	fmt.Fprintf(&b, "package %s\n\nimport \"math\"\n\ntype Ctx struct{ Tok string }\n\n// goverter:converter\n// goverter:extend %s\n%stype C interface {\n", pkg, ext, wrap)
 	params := "source A"
 	if s.RootCtx {
 		b.WriteString("\t// goverter:context ctx\n")
@@ -66,6 +77,7 @@ func callsSource(i int, s callsScen) string {
 	} else {
 		fmt.Fprintf(&b, "func E(%s) string { return %s }\n", eparams, mark)
 	}
+	b.WriteString("\nfunc Canon(s string) string { return \"C(\" + s + \")\" }\n\nfunc Tok(v int) string { return tok(v) }\n")
 	names := []string{"F", "G"}
 	for _, id := range []string{"A", "B"} {
 		var sf, tf []string
@@ -86,6 +98,60 @@ func progDir(i int, s callsScen) string {
 	}
 	return fmt.Sprintf("p%d", i)
 }
+
+// wxSource: the wrapErrorsUsing package of the harness. Wrap prepends its elements to the path the error already carries,
+// so nested Wrap calls compose outermost first.
+const wxSource = `package wx
+
+import (
+	"fmt"
+	"math"
+	"strings"
+)
+
+type PathErr struct {
+	Err   error
+	Elems []string
+}
+
+func (p *PathErr) Error() string { return "path:" + strings.Join(p.Elems, "/") + "|" + p.Err.Error() }
+func (p *PathErr) Unwrap() error { return p.Err }
+
+type elem string
+
+func Wrap(err error, elems ...interface{}) error {
+	var es []string
+	for _, e := range elems {
+		es = append(es, string(e.(elem)))
+	}
+	if pe, ok := err.(*PathErr); ok {
+		return &PathErr{Err: pe.Err, Elems: append(es, pe.Elems...)}
+	}
+	return &PathErr{Err: err, Elems: es}
+}
+func Field(name string) interface{} { return elem(name) }
+func Index(i int) interface{}        { return elem(fmt.Sprintf("[%d]", i)) }
+func Key(k interface{}) interface{} {
+	switch v := k.(type) {
+	case int:
+		switch v {
+		case 0:
+			return elem("{z}")
+		case math.MinInt:
+			return elem("{a}")
+		case math.MaxInt:
+			return elem("{b}")
+		}
+		return elem(fmt.Sprintf("{%d}", v))
+	case string:
+		if v == "" {
+			return elem("{z}")
+		}
+		return elem("{" + v + "}")
+	}
+	return elem(fmt.Sprintf("{%v}", k))
+}
+` + "\n"
 
 func stripLabels(v any) any {
 	switch x := v.(type) {
@@ -139,7 +205,7 @@ func cmdCalls(args []string) {
 		return nil
 	}))
 	mod := "v.test/b"
-	files := map[string]string{"go.mod": "module " + mod + "\ngo 1.18\n"}
+	files := map[string]string{"go.mod": "module " + mod + "\ngo 1.18\n", "wx/wx.go": wxSource}
 	for i, s := range scens {
 		files[progDir(i, s)+"/in.go"] = callsSource(i, s)
 	}
@@ -277,7 +343,7 @@ func cmdCalls(args []string) {
 	defer obs.Close()
 	base := func(i int) map[string]any {
 		s := scens[i]
-		return map[string]any{"id": i, "dir": s.Dir, "shape": s.Shape, "rootErr": s.RootErr, "extErr": s.ExtErr, "rootCtx": s.RootCtx, "extCtx": s.ExtCtx}
+		return map[string]any{"id": i, "dir": s.Dir, "extId": s.ExtId, "wrap": s.Wrap, "shape": s.Shape, "rootErr": s.RootErr, "extErr": s.ExtErr, "rootCtx": s.RootCtx, "extCtx": s.ExtCtx}
 	}
 	nOK := 0
 	for i := range scens {
@@ -314,7 +380,15 @@ func cmdCalls(args []string) {
 		hx.Must(json.Unmarshal(s.Ins[j/per], &in))
 		r["exec"], r["in"], r["faults"], r["panic"] = true, in, s.ExtErr && j%per == 1, d["panic"] == true
 		r["err"] = ""
+		r["path"] = []string{}
 		if e, _ := d["err"].(string); e != "" {
+			if strings.HasPrefix(e, "path:") {
+				parts := strings.SplitN(strings.TrimPrefix(e, "path:"), "|", 2)
+				if parts[0] != "" {
+					r["path"] = strings.Split(parts[0], "/")
+				}
+				e = parts[1]
+			}
 			r["err"] = strings.TrimPrefix(e, "inj:")
 		}
 		r["out"] = map[string]any{"k": "nil"}
